@@ -466,8 +466,10 @@ def _parse_current_version_default_pattern(raw_cfg: RawConfig, raw_cfg_text: str
     is_config_section = False
     for line in raw_cfg_text.splitlines():
         if is_config_section and line.startswith("current_version"):
-            current_version: str = raw_cfg['current_version']
-            version_pattern: str = raw_cfg['version_pattern']
+            # NOTE: In a .cfg file the raw values include their quotes. Strip them, so the
+            #   pattern keeps the quotes (or lack thereof) of the current_version line itself.
+            current_version: str = raw_cfg['current_version'].strip("'\" ")
+            version_pattern: str = raw_cfg['version_pattern'].strip("'\" ")
             return line.replace(current_version, version_pattern)
 
         if line.strip() == "[pycalver]":
